@@ -154,6 +154,7 @@ def run_check(mod, tier: str, seed: int, cap_s: float | None = None):
             capped.append(r["capped_at"])
     samples.sort(key=lambda s: s[0])
     rep = findings.Reporter(pid)
+    rep.clean_old_replays()
     # confirm each violation by replaying it once, outside the explorer, before reporting it
     infra_errors = 0
     viol = []
